@@ -96,6 +96,9 @@ pub struct Agg {
     pub runs_with_variants: u64,
     #[serde(default)]
     pub runs_repeat_checked: u64,
+    /// times the baton was taken from a holder found blocked on a lock of the code under test
+    #[serde(default)]
+    pub takeovers: u64,
     pub samples: Vec<serde_json::Value>,
 }
 
@@ -146,6 +149,7 @@ impl Agg {
         }
         self.runs_with_variants += o.runs_with_variants;
         self.runs_repeat_checked += o.runs_repeat_checked;
+        self.takeovers += o.takeovers;
         if self.samples.len() < 4 {
             for s in o.samples {
                 if self.samples.len() < 4 {
@@ -279,6 +283,7 @@ fn account(agg: &mut Agg, scen: &Scenario, index: u64, ev: &crate::eval::Eval) {
     if scen.repeat_check {
         agg.runs_repeat_checked += 1;
     }
+    agg.takeovers += res.log.takeovers;
     if agg.samples.len() < 2 && nt {
         agg.samples.push(sample_of(scen, index, ev));
     }
@@ -1211,7 +1216,7 @@ fn finalise_violation(rf: ReplayFile, budget_secs: u64) -> (ReplayFile, String) 
                 ),
                 _ => (
                     orig,
-                    "WARNING: violation did not reproduce in a fresh process (see DESIGN §3.8: only hash-order dependence can do this)".into(),
+                    "WARNING: violation did not reproduce in a fresh process (see DESIGN §3.8 and §11: only hash-order dependence or a baton takeover can do this)".into(),
                 ),
             }
         }
@@ -1304,6 +1309,7 @@ fn write_evidence(
             "stall_backstop_s": STALL_SECS,
             "runs_with_a_second_document_or_configuration": agg.runs_with_variants,
             "runs_executed_twice_for_repeat_check": agg.runs_repeat_checked,
+            "baton_takeovers_from_blocked_holders": agg.takeovers,
             "worker_processes": workers,
             "worker_deaths_attributed": aborts,
             "known_findings_hit": known_hits,
